@@ -70,6 +70,9 @@ class SimStream:
             self.fail_at_pos is not None and not self.fault_delivered and self.pos >= self.fail_at_pos
         ):
             self.fault_delivered = True
+            cb = getattr(self, "on_fault", None)
+            if cb is not None:
+                cb()
             if self.log is not None:
                 self.log.add("seam", site=self.name, op="read", req=n, outcome="raise:" + self.fail_kind)
             raise make_error(self.fail_kind)
